@@ -3,6 +3,7 @@ package stdlib
 import (
 	"errors"
 	"fmt"
+	"math"
 	"sort"
 
 	"github.com/zclconf/go-cty/cty"
@@ -984,6 +985,13 @@ var SetProductFunc = function.New(&function.Spec{
 		var retMarks cty.ValueMarks
 
 		total := 1
+		tooMany := false
+		// The result is built in one flat buffer of total*len(args) values,
+		// which has to stay within what can sensibly be allocated.
+		maxTotal := math.MaxInt32
+		if len(args) > 1 {
+			maxTotal /= len(args)
+		}
 		var hasUnknownLength bool
 		for _, arg := range args {
 			arg, marks := arg.Unmark()
@@ -999,7 +1007,16 @@ var SetProductFunc = function.New(&function.Spec{
 			// Because of our type checking function, we are guaranteed that
 			// all of the arguments are known, non-null values of types that
 			// support LengthInt.
-			total *= arg.LengthInt()
+			switch l := arg.LengthInt(); {
+			case l == 0:
+				total = 0
+			case total != 0 && total > maxTotal/l:
+				// Too many combinations to build, unless a later argument
+				// turns out to be empty.
+				tooMany = true
+			default:
+				total *= l
+			}
 		}
 
 		if hasUnknownLength {
@@ -1059,6 +1076,10 @@ var SetProductFunc = function.New(&function.Spec{
 					NewValue()
 			}
 			return ret, nil
+		}
+
+		if total != 0 && tooMany {
+			return cty.NilVal, errors.New("too many combinations: the result would have more elements than can be constructed")
 		}
 
 		if total == 0 {
